@@ -43,6 +43,19 @@ var alphabet = []string{
 	"config:show_all:unsigned",
 }
 
+// coreLen rules take part in the enumeration of all lists; the literal rules appended after them (one set rule per
+// notation of the injected value: decimals with leading zeros, which stay decimal in the number grammar, hex,
+// binary, the register maximum) are used alone and together with one observer each.
+var coreLen = len(alphabet)
+
+var literalValues = []string{"010", "0100", "007", "00017", "0089", "0b101", "0b00010001", "0x1f", "0xff", "255", "0", "00"}
+
+func init() {
+	for _, v := range literalValues {
+		alphabet = append(alphabet, "absolute:2:set:i0:"+v)
+	}
+}
+
 // lists one rule longer than the tier's bound are enumerated over this sub-alphabet (indices into alphabet)
 var subAlphabet = []int{0, 3, 7, 10}
 
@@ -484,7 +497,10 @@ func runSemantics(run *vlib.Run, scratch string, binCh <-chan string, binErr *er
 		mds = append(mds, &modeData{mode: md, mi: mi, mjson: mj, classes: map[string]*simClass{}})
 	}
 	var lists [][]int
-	forAllLists(len(alphabet), maxLen, func(idx []int) { lists = append(lists, append([]int{}, idx...)) })
+	forAllLists(coreLen, maxLen, func(idx []int) { lists = append(lists, append([]int{}, idx...)) })
+	for k := coreLen; k < len(alphabet); k++ {
+		lists = append(lists, []int{k}, []int{k, 8}, []int{k, 10}, []int{k, 7})
+	}
 	if maxLen < subLen {
 		// one more rule per list over a small sub-alphabet (set absolute / set periodic on the same input and two observers)
 		for _, sub := range [][]int{subAlphabet, setAlphabet} {
